@@ -878,10 +878,13 @@ def check_arbitrary_float(rep, g):
                 break
         if witness is not None:
             kinds = sorted(v['kind'] for v in d['validators'])
+            lows = [v for v in d['validators'] if v['kind'] in ('greater', 'greater_or_equal')]
+            ups = [v for v in d['validators'] if v['kind'] in ('less', 'less_or_equal')]
+            inf_end = lows and ups and any(isinstance(v.get('value'), float) and math.isinf(v['value']) for v in lows + ups)
             rep.ob('R-ARB-FLT', False, g,
                    f'panic path of arbitrary is reachable: the draw {witness!r} ({ty}) satisfies every condition leading to the panic',
                    {'draw': repr(witness), 'conds': [(show(cn)[:160], str(v)) for cn, v in o.conds][-4:], 'why': o.why},
-                   site=None)
+                   site='float Arbitrary scales between two bounds of which one is infinite (inf * 0 / inf - inf = NaN), with `finite` declared' if inf_end else None)
         else:
             # try to prove the row infeasible: some condition cannot take its edge for any draw
             proved = False
